@@ -143,6 +143,16 @@ func Record(seed int64, n int, out string) (int, error) {
 		w.WriteByte('\n')
 	}
 	for t := 0; t < n; t++ {
+		// every fourth trace is a call inside a whole program: a call position, or kept results (program.go)
+		if t%4 == 3 {
+			emit(map[string]any{"ev": "reset"})
+			if t%8 == 3 {
+				emit(recordPos(r))
+			} else {
+				emit(recordKeep(r))
+			}
+			continue
+		}
 		nfun := 2 + r.Intn(4)
 		perm := r.Perm(len(namePool))[:nfun]
 		var log []callLog
@@ -296,4 +306,84 @@ func Record(seed int64, n int, out string) (int, error) {
 		}
 	}
 	return n, nil
+}
+
+var posNames = []string{"begin", "action", "pattern", "range-start", "range-stop", "func-body", "end", "getline-file", "cond",
+	"subscript", "builtin-arg", "user-arg", "printf-arg"}
+var plainValueNames = []string{"three", "negthree", "twohalf", "n300", "zero", "abc", "s12", "s0", "empty", "sn12", "sn0", "unset", "big"}
+
+// recordPos: one run of a program whose one native call -- a function of 0-3 parameters of any kinds (variadic or
+// not), a constant result of any kind, any error mode, called with any menu values -- is written in a random position.
+func recordPos(r *rand.Rand) map[string]any {
+	s := &Sig{Shape: "ok", Name: namePool[r.Intn(len(namePool))], Params: []string{}, Res: "const", Rk: kindNames[r.Intn(len(kindNames))],
+		Err: []string{"none", "nil", "err"}[r.Intn(3)]}
+	np := r.Intn(4)
+	for i := 0; i < np; i++ {
+		s.Params = append(s.Params, kindNames[r.Intn(len(kindNames))])
+	}
+	s.Variadic = np > 0 && r.Intn(3) == 0
+	max := np
+	if s.Variadic {
+		max += 2
+	}
+	args, srcs := []string{}, []string{}
+	for j, na := 0, r.Intn(max+1); j < na; j++ {
+		v := valueNames[r.Intn(len(valueNames))]
+		args = append(args, v)
+		srcs = append(srcs, valueSrc[v])
+	}
+	pos := posNames[r.Intn(len(posNames))]
+	rec := &Recorder{}
+	fn, _ := MakeFunc(s, rec)
+	prog, _ := PosProgram(pos, s.Name+"("+strings.Join(srcs, ", ")+")")
+	out, stage, err, pv := runProgram(prog, map[string]any{s.Name: fn})
+	o := "ok"
+	switch {
+	case pv != "":
+		o = "panic"
+	case stage == "parse":
+		o = "parse-error"
+	case err != nil && rec.Calls > 0:
+		o = "abort"
+	case err != nil:
+		o = "other-error"
+	}
+	return map[string]any{"ev": "step", "op": "pos", "sig": sigJSON(s), "args": args, "pos": pos, "o": o, "calls": rec.Calls,
+		"after": hasLine(out, "A:"), "endmark": hasLine(out, "E:end"), "own": err == ErrSentinel, "src": prog, "panic": pv, "err": fmt.Sprint(err)}
+}
+
+// recordKeep: one run of a program that keeps the results of 2-5 calls (any plain menu value as argument).
+func recordKeep(r *rand.Rand) map[string]any {
+	rk, policy := "bytes", []string{"fresh", "scratch", "wipe"}[r.Intn(3)]
+	if r.Intn(4) == 0 {
+		rk, policy = "string", "fresh"
+	}
+	hold := []string{"var", "elem", "field", "subscript"}[r.Intn(4)]
+	args, srcs := []string{}, []string{}
+	for j, na := 0, 2+r.Intn(4); j < na; j++ {
+		v := plainValueNames[r.Intn(len(plainValueNames))]
+		args = append(args, v)
+		srcs = append(srcs, valueSrc[v])
+	}
+	calls := 0
+	fn, _ := keepFunc(rk, policy, &calls)
+	prog, _ := KeepProgram(hold, srcs)
+	out, stage, err, pv := runProgram(prog, map[string]any{"fn": fn})
+	o := "ok"
+	switch {
+	case pv != "":
+		o = "panic"
+	case stage != "":
+		o = stage + "-error"
+	}
+	kept := []any{}
+	for _, l := range strings.Split(out, "\n") {
+		if strings.HasPrefix(l, "K:") {
+			if i := strings.Index(l[2:], ":"); i >= 0 {
+				kept = append(kept, map[string]any{"key": l[2 : 2+i], "val": l[3+i:]})
+			}
+		}
+	}
+	return map[string]any{"ev": "step", "op": "keep", "rk": rk, "policy": policy, "hold": hold, "args": args, "o": o, "calls": calls,
+		"kept": kept, "src": prog, "panic": pv, "err": fmt.Sprint(err)}
 }
